@@ -294,7 +294,7 @@ pub fn run(ctx: &Ctx) -> Report {
         rep.machinery("strace not found (needed for syscall-level crash injection)");
         return rep;
     }
-    let budget = ctx.budget(80.0, 2400.0);
+    let budget = ctx.budget(55.0, 2400.0);
     let nthreads = rayon::current_num_threads().max(1);
     let sandboxes: Vec<Sandbox> = (0..nthreads + 1).map(|i| Sandbox::new(&ctx.scratch.join(format!("w{i}")))).collect();
     let sb0 = &sandboxes[nthreads];
